@@ -333,3 +333,96 @@ def boundary_sites(facts, f):
                                 lines.add(m.get("ln"))
     lines.discard(None)
     return lines
+
+
+# ---- A12: slot arithmetic of the order vector, decided on the typed tree under every value of the function's bool parameters
+
+def _bool_params(f):
+    return [p.get("lid") for p in f.get("params", []) if p.get("p") == "Bind" and str(p.get("ty")) == "bool"]
+
+
+def hir_affine(e, lets, env, depth=0):
+    """-> (base, offset) with base 'call:<method>' for `self.<method>(..)`, or None.  `env` maps bool locals to constants; an
+    `if` on such a local is replaced by the branch taken."""
+    if not isinstance(e, dict) or depth > 12:
+        return None
+    k = e.get("k")
+    if k == "Block" and not e.get("stmts"):
+        return hir_affine(e.get("expr"), lets, env, depth + 1)
+    if k in ("DropTemps", "Paren", "Use"):
+        return hir_affine(e.get("e") or e.get("a"), lets, env, depth + 1)
+    if k == "Path" and e.get("res") == "Local":
+        if e.get("lid") in lets:
+            return hir_affine(lets[e["lid"]], lets, env, depth + 1)
+        return None
+    if k == "MethodCall" and isinstance(e.get("recv"), dict) and e["recv"].get("k") == "Path" and e["recv"].get("name") == "self":
+        return ("call:" + e["m"], 0)
+    if k == "Lit" and e.get("t") == "int":
+        return ("const", int(e["v"]))
+    if k == "Binary" and e.get("op") in ("+", "-"):
+        a, b = hir_affine(e["a"], lets, env, depth + 1), hir_affine(e["b"], lets, env, depth + 1)
+        if a and b and b[0] == "const":
+            return (a[0], a[1] + (b[1] if e["op"] == "+" else -b[1]))
+        if a and b and a[0] == "const" and e["op"] == "+":
+            return (b[0], a[1] + b[1])
+        return None
+    if k == "If":
+        c = e.get("cond")
+        neg = False
+        while isinstance(c, dict) and c.get("k") in ("Unary", "DropTemps"):
+            if c.get("k") == "Unary" and c.get("op") == "!":
+                neg = not neg
+            c = c.get("a") or c.get("e")
+        if isinstance(c, dict) and c.get("k") == "Path" and c.get("lid") in env:
+            v = env[c["lid"]] != neg
+            return hir_affine(e["then"] if v else e.get("else"), lets, env, depth + 1)
+    return None
+
+
+def order_slot(facts, f, line=None, method="insert"):
+    """For `self.<vec>.<method>(index, ..)` in f (at `line` when given): {assignment of the bool parameters (tuple) ->
+    (affine index, guarded by `<same local> > 0`)}; None when there is no such call or an index is not understood."""
+    lets = {m["pat"]["lid"]: m["init"] for m in walk(f["body"])
+            if m.get("s") == "Let" and m.get("pat", {}).get("p") == "Bind" and "init" in m}
+    calls = [m for m in walk(f["body"]) if m.get("k") == "MethodCall" and m.get("m") == method and "Vec<" in str(m.get("recvty", ""))
+             and (line is None or m.get("ln") == line) and m.get("args")]
+    if len(calls) != 1:
+        return None
+    call = calls[0]
+    # the enclosing guard: an `if x > 0` / `x != 0` / `0 < x` whose then-branch contains the call
+    guard_local = None
+    for n in walk(f["body"]):
+        if n.get("k") == "If" and any(m is call for m in walk(n.get("then"))):
+            c = n["cond"]
+            while isinstance(c, dict) and c.get("k") == "DropTemps":
+                c = c.get("e")
+            if isinstance(c, dict) and c.get("k") == "Binary":
+                a, b = c["a"], c["b"]
+                if c["op"] in (">", "!=") and a.get("k") == "Path" and b.get("k") == "Lit" and str(b.get("v")) == "0":
+                    guard_local = a.get("lid")
+                if c["op"] == "<" and b.get("k") == "Path" and a.get("k") == "Lit" and str(a.get("v")) == "0":
+                    guard_local = b.get("lid")
+    bl = _bool_params(f)
+    out = {}
+    import itertools
+    for vals in itertools.product((True, False), repeat=len(bl)):
+        env = dict(zip(bl, vals))
+        a = hir_affine(call["args"][0], lets, env)
+        if a is None:
+            return None
+        g = guard_local is not None and hir_affine({"k": "Path", "res": "Local", "lid": guard_local}, lets, env) == (a[0], 0)
+        out[vals] = (a, g)
+    return out
+
+
+def order_slot_proof(facts, f, line):
+    """A12: Vec::insert at `g` or `g - 1` under the guard `g > 0`, g = self.get(id) = position + 1 or 0 (C14-4 checks get):
+    g <= len and g - 1 < len, for every value of the bool parameters."""
+    if f.get("impl_self") != "DocumentOrder" or "body" not in f:
+        return None
+    r = order_slot(facts, f, line)
+    if not r:
+        return None
+    if all(a[0] == "call:get" and a[1] in (0, -1) and g for a, g in r.values()):
+        return "A12: the index is get(id) or get(id) - 1 under the guard get(id) > 0 (get = position + 1, or 0 when absent), for every value of the function's flags"
+    return None
